@@ -1,6 +1,7 @@
 package props
 
 import (
+	"errors"
 	"fmt"
 	"reflect"
 	"sort"
@@ -159,7 +160,18 @@ func c17Chain(c *core.Ctx) {
 		seqs := [][]spec.Mod{{withOpts, bare}, {bare, withOpts}, {withOpts, {Op: spec.MOptional}, bare}, {withOpts, {Op: spec.MOptional}}, {bare, withOpts, bare}}
 		leaf.Mods = append(leaf.Mods, seqs[c.R.Intn(len(seqs))]...)
 	}
-	// a few extra tests so that chains are longer, Not() forms included (the generator attaches witness-consistent tests)
+	// every 4th chain ends in a PostTransform that returns a plain error: that issue belongs to the node, whatever options
+	// (IssuePath, IssueCode, Params, Message) the tests before it carry
+	failingPost := c.R.Intn(4) == 0 && !leaf.Eff().HasCatch
+	if failingPost {
+		leaf.Posts = append(leaf.Posts, spec.Post{Name: "returns-error", Fn: func(any) error { return errors.New("post-transform sentinel") }})
+	}
+	postPath := ""
+	for x := n; x.Kind == spec.Slice || x.Kind == spec.Ptr; x = x.Elem {
+		if x.Kind == spec.Slice {
+			postPath += "[0]"
+		}
+	}
 	src := n.Source()
 	interesting := len(leaf.Mods) > 1
 	for _, t := range leaf.Tests {
@@ -237,6 +249,18 @@ func c17Chain(c *core.Ctx) {
 				c.Violation("panic|"+panicKind(out.Panic), describeCase(n, mode, input, map[string]any{"panic": trunc(fmt.Sprint(out.Panic), 300), "stack": trunc(out.Stack, 1500)}))
 				return
 			}
+			if failingPost && len(exp.Issues) == 0 {
+				// nothing else failed: if the transform ran, its error is the only issue, at the node's own path, described as what it is
+				if len(out.Issues) > 0 {
+					ci := out.Issues[0]
+					if len(out.Issues) != 1 || ci.Path != postPath || (ci.Code != "" && ci.Code != "custom") || (ci.Params != "nil" && ci.Params != "{}") {
+						c.Violation("builder-chain|post-transform-error-carries-test-options|"+mode.String(), describeCase(n, mode, input, map[string]any{"want": fmt.Sprintf("one issue: path %q, no test code, no params", postPath), "issues": issuesText(out)}))
+						return
+					}
+					c.Count("post_transform_error_issues_checked", 1)
+				}
+				continue
+			}
 			var want, got []string
 			failedUIDs := map[int]bool{}
 			for _, x := range exp.Issues {
@@ -246,6 +270,9 @@ func c17Chain(c *core.Ctx) {
 				}
 			}
 			for _, ci := range out.Issues {
+				if failingPost && ci.Err == "post-transform sentinel" && strings.HasPrefix(ci.Path, postPath[:min(len(postPath), len(ci.Path))]) && ci.Code == "" {
+					continue // the transform of an instance visited before anything failed (which one depends on the visit order): judged above when nothing else fails
+				}
 				got = append(got, describeActual(ci))
 			}
 			sort.Strings(want)
@@ -340,6 +367,22 @@ func c17Coercer(c *core.Ctx) {
 	data["a"] = fix(root.Fields[0].Node, data["a"])
 	if l.Elem.Kind == spec.Time {
 		data["l"] = []any{gen.BaseTime.Format(time.RFC3339)}
+	}
+	if r.Intn(3) == 0 {
+		// the input already is a slice of exactly the destination's type: the coercers installed on the slice and on its
+		// element still are what turns it into the value
+		switch l.Elem.Kind {
+		case spec.String:
+			data["l"] = []string{"1", "0"}
+		case spec.Int:
+			data["l"] = []int{1, 0}
+		case spec.Float64:
+			data["l"] = []float64{1, 0}
+		case spec.Bool:
+			data["l"] = []bool{true, false}
+		case spec.Time:
+			data["l"] = []time.Time{gen.BaseTime}
+		}
 	}
 	data["p"] = fix(root.Fields[2].Node.Elem, data["p"])
 	sm := data["s"].(map[string]any)
